@@ -404,6 +404,59 @@ def job_bounds_repeat(job, cls, nx):
         job.prove(f"{tag}/reach[path{k}]", pr.pc, expect="sat", elim=True, abstract=False)
 
 
+def replay_after_recovery(model, cls="SinglePhaseReservoir", nx=3):
+    """Real run: simulate, then ask for the recovery factor (both modes where a density table exists): the stored field is
+    still the simulated one and still inside the bounds."""
+    import numpy as np
+    from bluebonnet.flow import reservoir as rr
+    from .c04 import _real_fluid
+    t = np.linspace(0, 1.5, 15) ** 2
+    if cls == "IdealReservoir":
+        res, lo, hi = rr.IdealReservoir(max(nx, 6), 1000.0, 8000.0, None), 0.0, 1.0
+    else:
+        fluid = _real_fluid()
+        res, lo, hi = rr.SinglePhaseReservoir(max(nx, 6), 4000.0, 8000.0, fluid), float(fluid.m_scaled_func(4000.0)), float(fluid.m_i)
+    res.simulate(t)
+    before = np.array(res.pseudopressure, dtype=float, copy=True)
+    res.recovery_factor()
+    if cls != "IdealReservoir":
+        res.recovery_factor(density=True)
+        res.recovery_factor()
+    after = np.asarray(res.pseudopressure, float)
+    problems = []
+    if after.shape != before.shape or np.any(after != before):
+        problems.append(f"the stored field changed by up to {np.abs(after - before).max():.3e} after the recovery calls")
+    if after.min() < lo - 1e-9 * hi or after.max() > hi * (1 + 1e-9):
+        problems.append(f"field [{after.min()!r}, {after.max()!r}] outside [{lo!r}, {hi!r}]")
+    return bool(problems), {"what": f"{cls}: simulate, then recovery_factor(): " + ("; ".join(problems) or "field untouched"), "inputs": {}}
+
+
+def job_after_recovery(job, cls, nx):
+    """The bounds are a statement about `reservoir.pseudopressure after simulate()`: asking for the recovery factor
+    afterwards (which reads the first three columns) must leave that field as simulated."""
+    mod = load_reservoir()
+    job.encoded(mod, f"{cls}.simulate", "IdealReservoir.recovery_factor")
+    tag = f"{cls}[nx={nx},after recovery_factor()]"
+    rp = (replay_after_recovery, {"cls": cls, "nx": nx})
+
+    def run():
+        r, fluid, t, mf = _sim(mod, cls, nx, 2, False, policy_exact())
+        before = [list(row) for row in rows_of(r)]
+        r.recovery_factor()
+        after = rows_of(r)
+        changed = [(i, j) for i in range(len(before)) for j in range(nx) if P(after[i][j]) != P(before[i][j])]
+        return changed
+    for k, pr in enumerate(paths(job, run, [], max_paths=16, catch=(Exception,))):
+        if pr.exc is not None:
+            job.prove(f"{tag}/raises {type(pr.exc).__name__}[path{k}]", pr.pc, bound=f"nx={nx}", replay=rp, note=repr(pr.exc)[:80], elim=True)
+            continue
+        if pr.value:
+            job._violation(f"{tag}/stored field is still the simulated one[path{k}]", {},
+                           {"what": f"entries {pr.value[:4]} of the stored field were rewritten by recovery_factor()", "replayer": "replay_after_recovery", "replayer_kwargs": rp[1]}, None)
+        else:
+            job.record(f"{tag}/stored field is still the simulated one[path{k}]", "unsat", 0.0, note="effect check on the path: every entry is the same term")
+
+
 def job_space(job, cls, nx):
     """Constant drawdown: non-decreasing away from the fracture (invariant with the bounds)."""
     job.solve_defaults = {"abstract": True}
@@ -554,7 +607,7 @@ def job_matrix(job, nx):
 
 
 # concrete replays run on the real code when the changed code uses something the engine does not model (harness.finish)
-FALLBACK = [(replay_relax, {}), (replay_repeat, {}), (replay_repeat, {"cls": "IdealReservoir"}), (replay_reuse, {}), (replay_reuse, {"how": "schedule"}), (replay_inttime, {})]
+FALLBACK = [(replay_relax, {}), (replay_repeat, {}), (replay_repeat, {"cls": "IdealReservoir"}), (replay_reuse, {}), (replay_reuse, {"how": "schedule"}), (replay_inttime, {}), (replay_after_recovery, {}), (replay_after_recovery, {"cls": "IdealReservoir"})]
 
 
 def jobs(tier):
@@ -576,6 +629,8 @@ def jobs(tier):
     out.append(("bounds-inttime-3", lambda j: job_bounds_inttime(j, 3)))
     for cls in ("SinglePhaseReservoir", "IdealReservoir"):
         out.append((f"repeat-{cls[:6]}-3", lambda j, c=cls: job_bounds_repeat(j, c, 3)))
+    for cls in ("SinglePhaseReservoir", "IdealReservoir"):
+        out.append((f"after-recovery-{cls[:6]}-4", lambda j, c=cls: job_after_recovery(j, c, 4)))
     out.append(("reuse-field-3", lambda j: job_reuse(j, 3, "field")))
     out.append(("reuse-schedule-3", lambda j: job_reuse(j, 3, "schedule")))
     for nx in ((3, 5, 8) if tier == "quick" else (3, 4, 5, 6, 7, 8, 12, 20)):
